@@ -161,6 +161,45 @@ namespace
         }
     };
 
+    // stateless leaf (its probe lives in a static): wrappers around it are stateful only through what they add themselves
+    struct sl_leaf
+    {
+        using is_stateful = std::false_type;
+        static probe_handle& h()
+        {
+            static probe_handle p;
+            return p;
+        }
+        void* allocate_node(std::size_t size, std::size_t al)
+        {
+            return h()->acquire(false, 1, size, al);
+        }
+        void* allocate_array(std::size_t c, std::size_t size, std::size_t al)
+        {
+            return h()->acquire(true, c, size, al);
+        }
+        void deallocate_node(void* p, std::size_t size, std::size_t al) noexcept
+        {
+            h()->release(false, p, 1, size, al);
+        }
+        void deallocate_array(void* p, std::size_t c, std::size_t size, std::size_t al) noexcept
+        {
+            h()->release(true, p, c, size, al);
+        }
+        std::size_t max_node_size() const noexcept
+        {
+            return std::size_t(1) << 30;
+        }
+        std::size_t max_array_size() const noexcept
+        {
+            return std::size_t(1) << 30;
+        }
+        std::size_t max_alignment() const noexcept
+        {
+            return 4096;
+        }
+    };
+
     struct leaves
     {
         std::vector<probe_handle> h;
@@ -905,6 +944,9 @@ namespace
             run_case(kind, c, [&] {
                 auto    r = case_rng(a.seed, a.group, kind, c);
                 fwd_env env;
+                // std_allocator, the deleters and the smart-pointer helpers are also what C10 is about (every piece of memory goes back to
+                // the allocator it came from, as what it was obtained as)
+                also_scope as("C10", "C09");
                 {
                     probe_raw leaf(env.lv.raw("leaf", "C09"));
                     op("std_allocator over value types of 1..70000 bytes");
@@ -1026,6 +1068,8 @@ int main(int argc, char** argv)
         static leaves*   cur_leaves = nullptr;
         g_after_op = [](const std::string& kind) {
             auto& A = *cur_leaves->h[0];
+            // a tracker that is told about memory its allocator never handed out: the refused composable deallocation changed something
+            also_scope as("C08", "C09");
             if (tlog.node_alloc + tlog.array_alloc != A.served || tlog.node_dealloc + tlog.array_dealloc != A.releases)
                 viol("C09", "C09/" + kind + "/tracker-count", "the tracked default allocator served %ld and released %ld blocks, its tracker saw %ld allocations and %ld deallocations",
                      A.served, A.releases, tlog.node_alloc + tlog.array_alloc, tlog.node_dealloc + tlog.array_dealloc);
@@ -1205,6 +1249,20 @@ int main(int argc, char** argv)
             auto h = std::make_shared<any_tr_holder>(tracker{&e.tl}, std::size_t(1) << r.below(5), L(e));
             return std::shared_ptr<allocator_reference<tracked_allocator<tracker, aligned_allocator<probe_raw>>>>(h, &h->ref);
         }, BIG, 16, true);
+        // a tracker with state around a stateless allocator is a stateful allocator: references must refer to the object they were given
+        struct sl_tr_holder
+        {
+            tracked_allocator<tracker, sl_leaf>                      inner;
+            allocator_reference<tracked_allocator<tracker, sl_leaf>> ref;
+            sl_tr_holder(tracker t) : inner(t, sl_leaf{}), ref(inner) {}
+        };
+        forward_kind<allocator_reference<tracked_allocator<tracker, sl_leaf>>>(a, "reference<tracked<stateless-leaf>>", [&](fwd_env& e, rng&) {
+            sl_leaf::h() = e.lv.raw("leaf-stateless", "C09");
+            auto h       = std::make_shared<sl_tr_holder>(tracker{&e.tl});
+            return std::shared_ptr<allocator_reference<tracked_allocator<tracker, sl_leaf>>>(h, &h->ref);
+        }, BIG, 16, true);
+        // (any_allocator_reference over a tracked_allocator whose allocator is not composable does not compile: the type erasure
+        //  instantiates tracked_allocator's try_ members - a build-time matter outside this family)
         struct mr_seg_holder
         {
             memory_resource_adapter<SEG> res;
